@@ -31,6 +31,11 @@ type Grads = Vec<Option<(Vec<usize>, Vec<f64>)>>;
 
 /// run the program on a fresh instance, one pass from `root` with `seed`; gradient of every slot
 fn run_once(hist: &History, root: usize, seed: Option<&[f64]>, prelude: Option<&[usize]>) -> Result<Grads, String> {
+    run_after(hist, root, &[], seed, prelude)
+}
+
+/// like `run_once`, after the passes `earlier` from the same root (gradients accumulate; the root itself holds one)
+fn run_after(hist: &History, root: usize, earlier: &[Option<&[f64]>], seed: Option<&[f64]>, prelude: Option<&[usize]>) -> Result<Grads, String> {
     let mut ex = Exec::new();
     for s in &hist.steps {
         ex.step(s)?;
@@ -42,6 +47,9 @@ fn run_once(hist: &History, root: usize, seed: Option<&[f64]>, prelude: Option<&
             let y = &x * 2.0;
             y.backward(None);
         })?;
+    }
+    for e in earlier {
+        ex.step(&Step::Backward { h: root, seed: e.map(|s| s.to_vec()) })?;
     }
     ex.step(&Step::Backward { h: root, seed: seed.map(|s| s.to_vec()) })?;
     let mut out = vec![];
@@ -239,6 +247,30 @@ impl Case17 {
             };
             if !same {
                 return e("omitted-seed", format!("handle {}: backward(None) gives {:?} but backward(ones) gives {:?} (an unrelated backward(None) on dims {:?} ran before)", h, gn[h], go[h], self.prelude_dims));
+            }
+        }
+        // ... also on a root that already holds a gradient: after a seeded pass, and after two omitted-seed passes,
+        // from the SAME root, backward(None) and backward(ones) leave the same accumulated gradients, bitwise
+        // (an implementation that takes the root's stored gradient for the seed it was given last time)
+        let s1 = Some(&self.s1[..]);
+        for (label, earlier) in [("a pass seeded with s1", vec![s1]), ("two passes with an omitted seed", vec![None, None])] {
+            let go = match run_after(&self.hist, self.root, &earlier, Some(&ones), None) {
+                Ok(g) => g,
+                Err(_) => continue,
+            };
+            let gn = match run_after(&self.hist, self.root, &earlier, None, None) {
+                Ok(g) => g,
+                Err(p) => return e("omitted-seed-panics", format!("after {} from the same root backward(ones) ran but backward(None) panicked: {}", label, p)),
+            };
+            for h in 0..gn.len() {
+                let same = match (&gn[h], &go[h]) {
+                    (None, None) => true,
+                    (Some((d1, v1)), Some((d2, v2))) => d1 == d2 && v1.len() == v2.len() && v1.iter().zip(v2).all(|(a, b)| a.to_bits() == b.to_bits() || (a.is_nan() && b.is_nan())),
+                    _ => false,
+                };
+                if !same {
+                    return e("omitted-seed", format!("handle {}: after {} from the same root, backward(None) leaves {:?} but backward(ones) leaves {:?}", h, label, gn[h], go[h]));
+                }
             }
         }
         Ok((compared, exact))
